@@ -382,8 +382,12 @@ func evalCase(d caseDesc) ev.Result {
 		}
 	case "replay":
 		// the OwnerSign (made for the first session's nonce) is sent in a fresh session
+		first := nonce
 		if tok, nonce, err = hello(); err != nil {
 			return ev.Failf("hello", "%v", err)
+		}
+		if bytes.Equal(first, nonce) {
+			return ev.Failf("nonce-not-fresh", "the rendezvous server issued the same TO0 nonce %x in two sessions", nonce)
 		}
 	case "other-to1d":
 		// OwnerSign for this voucher carrying the to1d made for another device's voucher
